@@ -687,12 +687,12 @@ def step (sch : SchemaEval) (db : SeqDB) (c : Call) (oids : List V) : Res (SeqDB
     | .error e => .error e
     | .ok _ => .ok (if (db.get? h).isSome then db else db.put h SColl.new, .unit)
   | .dropCollection h =>
-    match writable h false with
+    -- a collection name is needed (without one this would be the request to drop the database)
+    match writable h true with
     | .error e => .error e
     | .ok _ =>
-      let hit (ns : Handle) : Bool := ns == h || (h.coll == "" && ns.db == h.db)
-      if (db.colls.filter fun (ns, _) => hit ns).isEmpty then .ok (db, .unit)
-      else .ok ({ colls := db.colls.filter fun (ns, _) => !hit ns, logged := true }, .unit)
+      if (db.colls.filter fun (ns, _) => ns == h).isEmpty then .ok (db, .unit)
+      else .ok ({ colls := db.colls.filter fun (ns, _) => !(ns == h), logged := true }, .unit)
   | .dropDatabase name =>
     match writable ⟨name, ""⟩ false with
     | .error e => .error e
